@@ -148,4 +148,27 @@ theorem label_matches_source :
   refine ⟨by decide, by decide, by decide, fun n => ?_⟩
   simp [Arl.recl, Generated.arlLabelBytes]
 
+/-- **the scale is representable**: the exponent `pack2d` records is at least -120, so the scale `2^(7 - NEXP)` never
+exceeds `2^127`, the largest power of two a float32 holds (below that the bytes were all zero: repaired, see
+known_findings) -/
+theorem nexp_floor (r : ℚ) : -120 ≤ nexpOf r := by
+  unfold nexpOf
+  split
+  · decide
+  · exact le_max_right _ _
+
+theorem scale_finite (r : ℚ) : scaleOf (nexpOf r) ≤ (2 : ℚ) ^ 127 ∨ 7 - nexpOf r < 0 := by
+  have h := nexp_floor r
+  by_cases hneg : 7 - nexpOf r < 0
+  · exact Or.inr hneg
+  · left
+    unfold scaleOf pow2
+    rw [if_pos (by omega)]
+    apply pow_le_pow_right₀ (by norm_num)
+    omega
+
+/-- non-vacuity: a difference of `2^-122` (a nearly constant field of magnitude 1e-30) gets the exponent -120, not -121 -/
+example : nexpOf (1 / (2 : ℚ) ^ 122) = -120 ∧ nexpOf (1 / (2 : ℚ) ^ 100) = -99 := by
+  decide +kernel
+
 end Props.C20
